@@ -89,6 +89,21 @@ func ExprFromXJS(e ast.Expression) (n *ir.Node, err error) {
 	return (&xc{}).xexpr(e, "expr"), nil
 }
 
+// ExprFromXJSLenient converts one expression, accepting node combinations
+// outside the subset (non-identifier member properties).
+func ExprFromXJSLenient(e ast.Expression) (n *ir.Node, err error) {
+	defer func() {
+		if r := recover(); r != nil {
+			if e, ok := r.(shapeErr); ok {
+				n, err = nil, e
+				return
+			}
+			panic(r)
+		}
+	}()
+	return (&xc{lenient: true}).xexpr(e, "expr"), nil
+}
+
 type xc struct{ lenient bool }
 
 type shapeErr string
@@ -228,7 +243,7 @@ func (c *xc) xexpr(e ast.Expression, where string) *ir.Node {
 		id, ok := v.Property.(*ast.Identifier)
 		if !ok {
 			if c.lenient {
-				return ir.N(ir.Member, "?", c.xexpr(v.Object, where+"/member.obj"), c.xexpr(v.Property, where+"/member.prop"))
+				return ir.N(ir.Custom, "member-of-non-identifier", c.xexpr(v.Object, where+"/member.obj"), c.xexpr(v.Property, where+"/member.prop"))
 			}
 			fail("%s: member property is %T, not an identifier", where, v.Property)
 		}
